@@ -27,6 +27,7 @@ inductive Ev where
   | cb (n : Nat)
   | sendCall (sid : Nat) | sendBad (sid : Nat) | write (c sid idx : Nat) | writeFail (c sid : Nat) | drainFail (c : Nat) | sendReturn (sid : Nat)
   | closeCall | writerClose (c : Nat) | closeReturn
+  | closeAbort                     -- a close() call that its caller cancelled (e.g. wait_for): it did not return, nothing is promised about it
   | closeCallInRecv                -- close() called from inside the receive task (from the status callback it runs)
   | closeCallInReconn              -- close() called from inside the reconnect task (from the status callback that its connect() runs)
   | connCallInRecv                 -- connect() called from inside the receive task: returns at once, that task reconnects by itself
@@ -159,6 +160,7 @@ def stepCore (s : CS) (e : Ev) : Option CS :=
       { s with activeSends := s.activeSends.filter (· ≠ sid), doneSends := sid :: s.doneSends,
                lockHolder := if s.lockHolder = some sid then none else s.lockHolder }
   | .closeCall => some { s with closeCalled := true }
+  | .closeAbort => guard s.closeCalled s
   | .connCallInRecv => guard s.recv.isSome s
   -- one reconnect task serves all fault reports: a new one is only started when none is alive
   | .reconnStart => guard (s.reconn = 0 && s.faults > 0) { s with reconn := 1, reconnSlept := false, reconnCalled := false }
